@@ -45,8 +45,9 @@ LIM = 2 ** 50
 
 
 # ------------------------------------------------------------------ timeouts
-class RouterTimeout(Exception):
-    pass
+class RouterTimeout(BaseException):
+    """BaseException: a time limit must not be swallowed by an `except Exception` somewhere below the router
+    (networkx / qibo internals); the timer also re-fires every 50 ms until the call has been left"""
 
 
 def _alarm(signum, frame):
@@ -55,7 +56,7 @@ def _alarm(signum, frame):
 
 def with_timeout(seconds, fn, *a, **k):
     old = signal.signal(signal.SIGALRM, _alarm)
-    signal.setitimer(signal.ITIMER_REAL, seconds)
+    signal.setitimer(signal.ITIMER_REAL, seconds, 0.05)
     try:
         return fn(*a, **k)
     finally:
